@@ -214,6 +214,15 @@ func funcDeclName(fd *ast.FuncDecl) string {
 	if on, ok := origDeclName[fd.Name.Pos()]; ok {
 		name = on // renamed since the rules were written: see anchors.go
 	}
+	// a method that was a plain function when the rules were written, or the reverse: the name it had then
+	switch how := convertedDecl[fd.Name.Pos()]; {
+	case how == "func":
+		return name
+	case strings.HasPrefix(how, "method:"):
+		return strings.TrimPrefix(how, "method:") + "." + name
+	case strings.HasPrefix(how, "method-dropped-receiver:"):
+		return strings.TrimPrefix(how, "method-dropped-receiver:") + "." + name
+	}
 	return funcDeclNameWith(fd, name)
 }
 
